@@ -276,6 +276,15 @@ func checkC19(c C19Case, o *vcore.Obs) error {
 	o.Class("strategy-" + c.Strategy)
 	o.Class("kind-" + c.Kind)
 	o.ClassIf(len(c.Input) >= 30, "bulk-insertions-before-stored-keys")
+	if c.Strategy == "emptyput" {
+		asc := true
+		for i := 1; i < len(c.Input); i++ {
+			if keyLess(c.Kind, c.Input[i].Key, c.Input[i-1].Key) {
+				asc = false
+			}
+		}
+		o.ClassIf(!asc, "emptyput-input-not-in-DBI-order")
+	}
 	o.ClassIf(len(c.Stored) == 0, "stored-empty")
 	o.ClassIf(len(c.Input) == 0, "input-empty")
 	for _, st := range c.Stored {
@@ -382,7 +391,8 @@ func genC19(t *rapid.T) C19Case {
 	var c C19Case
 	c.Strategy = rapid.SampledFrom([]string{"update", "iterupdate", "iterupdate", "emptyput"}).Draw(t, "strategy")
 	if c.Strategy == "emptyput" {
-		c.Kind = "dupsort"
+		// the syncer rebuilds duplicate-keys DBIs this way; the strategy itself accepts any DBI kind
+		c.Kind = rapid.SampledFrom([]string{"dupsort", "dupsort", "dupsort", "plain", "int4", "int8"}).Draw(t, "ekind")
 	} else {
 		c.Kind = rapid.SampledFrom([]string{"plain", "plain", "int4", "int8"}).Draw(t, "kind")
 	}
@@ -427,7 +437,7 @@ func genC19(t *rapid.T) C19Case {
 		}
 		if in {
 			reps := 1
-			if c.Strategy == "emptyput" {
+			if c.Strategy == "emptyput" && c.Kind == "dupsort" {
 				reps = rapid.IntRange(1, 3).Draw(t, "dups")
 			}
 			for r := 0; r < reps; r++ {
@@ -520,6 +530,11 @@ func genC19(t *rapid.T) C19Case {
 		// Update does not need sorted input
 		perm := rapid.Permutation(c.Input).Draw(t, "perm")
 		c.Input = perm
+	}
+	if c.Strategy == "emptyput" && len(c.Input) > 1 && rapid.Bool().Draw(t, "eshuffle") {
+		// rebuild-from-empty does not need sorted input either (the decoded keys of a duplicate-keys DBI do not
+		// come in the application DBI's order): any permutation is valid input
+		c.Input = rapid.Permutation(c.Input).Draw(t, "eperm")
 	}
 	if c.Strategy == "iterupdate" && len(c.Input) >= 2 && rapid.IntRange(0, 5).Draw(t, "unsorted?") == 0 {
 		c.Unsorted = true
